@@ -659,3 +659,31 @@ def n6(prog):
     if bad:
         findings.append({"key": "N6:pairs", "where": "libzwerg/lexer.ll", "msg": "the second splice of a literal is scanned differently depending on the first: " + bad, "detail": None})
     return inst, findings
+
+
+def y6(prog):
+    """every byte can be the whole query: the scanner simulated on each of the 256 one-byte queries and on each byte between two words;
+    the outcome is a token stream or an error raised by an action - never a memory error inside an action (the catch-all rule formats
+    the offending byte into a five-byte buffer: `0x%02x` of a sign-extended char is ten characters)."""
+    import flexsim
+    inst, findings = [], []
+    sc = _scanner(prog)
+    bad = None
+    n = 0
+    outcomes = {"tokens": 0, "rejected": 0}
+    for b in range(256):
+        for text in (bytes([b]), b"a " + bytes([b]) + b" b"):
+            n += 1
+            try:
+                sc.tokens(text)
+                outcomes["tokens"] += 1
+            except flexsim.ScanError as x:
+                if "memory error" in str(x):
+                    bad = bad or "the query %r: %s" % (text, x)
+                outcomes["rejected"] += 1
+    inst.append(("Y6:every-byte", dict(outcomes, queries=n)))
+    if outcomes["rejected"] < 50:
+        raise Broken("only %d one-byte queries are rejected: the catch-all rule was not exercised" % outcomes["rejected"])
+    if bad:
+        findings.append({"key": "Y6:every-byte", "where": "libzwerg/lexer.ll", "msg": bad + ": an invalid byte in the query must be reported, not overflow the scanner's stack", "detail": None})
+    return inst, findings
